@@ -449,6 +449,12 @@ class ExprMixin:
             if isinstance(vals, Raise):
                 out.append((vals, s))
                 continue
+            if isinstance(e.op, ast.Div) and (vals[0].k == 'pathobj' or vals[1].k == 'pathobj'):
+                # pathlib: a / b  ==  os.path.join(a, b)
+                parts = [x.a[0] if x.k == 'pathobj' else x for x in vals]
+                ev = self.emit(s, 'EXT', e, name='os.path.join', args=parts, kwargs={})
+                out.append((V('pathobj', V('ext', 'os.path.join', ev.seq)), s))
+                continue
             out.append((self.binop(e.op, vals[0], vals[1]), s))
         return out
 
@@ -569,6 +575,13 @@ class ExprMixin:
         return out
 
     def get_attr(self, base, attr, node, st):
+        if base.k == 'pathobj':
+            if attr in ('parent', 'name'):
+                full = 'os.path.dirname' if attr == 'parent' else 'os.path.basename'
+                ev = self.emit(st, 'EXT', node, name=full, args=[base.a[0]], kwargs={})
+                v = V('ext', full, ev.seq)
+                return [(V('pathobj', v) if attr == 'parent' else v, st)]
+            return [(V('bound', base, attr), st)]
         if base.k == 'self':
             cls = base.a[0]
             if (cls, attr) in st.selfenv:
